@@ -99,8 +99,8 @@ T_HEX = ['a', '7', 'F', '+', 'é', 'x', 'g']
 BOUNDS = {
     "quick": dict(N_SCAN=4, U_SCAN=7, N_ESC=3, U_ESC=5, N_NUM=4, U_NUM=6, N_CMT=5, U_CMT=9,
                   N_TOK=2, U_TOK=5, N_SPAN=4, U_SPAN=6, SCAP=24),
-    "thorough": dict(N_SCAN=6, U_SCAN=10, N_ESC=6, U_ESC=10, N_NUM=6, U_NUM=10, N_CMT=7, U_CMT=11,
-                     N_TOK=3, U_TOK=14, N_SPAN=3, U_SPAN=14, SCAP=32),
+    "thorough": dict(N_SCAN=6, U_SCAN=9, N_ESC=5, U_ESC=7, N_NUM=6, U_NUM=8, N_CMT=7, U_CMT=11,
+                     N_TOK=3, U_TOK=6, N_SPAN=6, U_SPAN=8, SCAP=32),
 }
 
 
@@ -205,7 +205,10 @@ def run_batch(crate_dir, harnesses, feature=None, timeout=600, jobs=6, playback=
     for h in harnesses:
         cmd += ["--harness", MOD + h]
     env = E.kani_env()
-    env["CARGO_TARGET_DIR"] = os.path.join(crate_dir, "target")
+    # default: target dir inside the scratch crate (removed with it).  U11_TARGET_CACHE=<dir>
+    # keeps the third-party build (strum, syn, ...) between runs; the lexer crate itself is
+    # always rebuilt because its path and sources are fresh on every run.
+    env["CARGO_TARGET_DIR"] = os.environ.get("U11_TARGET_CACHE") or os.path.join(crate_dir, "target")
     t0 = time.time()
     # whole-invocation guard: compile + ceil(n/jobs) rounds of the per-harness timeout
     rounds = (len(harnesses) + jobs - 1) // max(1, jobs)
@@ -231,7 +234,7 @@ def run_batch(crate_dir, harnesses, feature=None, timeout=600, jobs=6, playback=
             failed.append(m.group(1).strip().strip('"'))
         for m in re.finditer(r'Check \d+: ([^\n]+)\n\s*- Status: FAILURE\n\s*- Description: "([^\n]*)"\n(?:\s*- Location: ([^\n]+))?', raw):
             if ".cover." not in m.group(1):
-                failed.append("%s @ %s" % (m.group(2), (m.group(3) or "").strip()))
+                failed.append("%s @ %s" % (m.group(2).strip('"'), (m.group(3) or "").strip()))
         cm = re.search(r'\*\* (\d+) of (\d+) cover properties satisfied', raw)
         if cm:
             cover.append(("%s of %s cover properties satisfied" % (cm.group(1), cm.group(2)),
@@ -258,7 +261,7 @@ def pick_playback(text):
         m = re.search(r'/// Check for `([^`]*)`: "([^\n]*)"', blk)
         if not m or m.group(1) == "cover":
             continue
-        if not SPEC_PREFIX.match(m.group(2)):
+        if not SPEC_PREFIX.match(m.group(2).strip('"')):
             continue
         vals = E.parse_playback(blk)
         if vals:
@@ -328,7 +331,7 @@ def table(b):
         dict(h="keyword_table", id="C04.lex.keyword_table", props=["C04", "C33"], fn="TokenKind::keyword_from_str / TokenKind::nchars", feature=None,
              total=None, bound=None,
              text="ensures for every keyword spelling w: keyword_from_str(w) == Some(k) with k.is_keyword() and k.nchars() == w.len() (real strum-derived FromStr / IntoStaticStr)"),
-        dict(h="tokenize_total", id="C04.lex.tokenize.total", props=["C04"], fn="tokenize_file", feature=None, tiers=("thorough",),
+        dict(h="tokenize_total", id="C04.lex.tokenize.total", props=["C04"], fn="tokenize_file", feature=None, tiers=("opt-in",),
              total=None,
              bound="source of <= %d chars over %s; unwind %d; callees handle_num, scan_for_unescaped_delim, process_escapes_into, handle_multiline_string, keyword_from_str, is_poly_ident replaced by their contracts" % (b['N_TOK'], alpha(T_ALL), b['U_TOK']),
              text="ensures returns (no panic); tokens.len() in 1..=len+1; last token is Eof and no other is; every span has lo <= hi; spans non-decreasing and non-overlapping"),
@@ -341,7 +344,8 @@ def run(tier="quick"):
     try:
         meta = build(sc.path, tier)
         b = meta['bounds']
-        rows = [r for r in table(b) if tier in r.get('tiers', ("quick", "thorough"))]
+        rows = [r for r in table(b) if tier in r.get('tiers', ("quick", "thorough"))
+                or ("opt-in" in r.get('tiers', ()) and os.environ.get("U11_TRY_TOKENIZE"))]
         tmo = 420 if tier == "quick" else 3000
         import concurrent.futures as cf
         plain = [r['h'] for r in rows if not r['feature']]
@@ -400,8 +404,10 @@ def run(tier="quick"):
             notes=dict(bounds=b, lexer_sha256=meta['real_sha'], slash_arm_sha=meta['arm_sha'], r7_applications=meta['r7_count'],
                        crate_imports=meta['crate_uses'], wall_plain_s=round(wall1, 1), wall_r7_s=round(wall2, 1),
                        covers={h: k['cover'] for h, k in res.items()},
-                       undecided_by_design=["C30.lex.multiline.indent: handle_multiline_string is out of CBMC's reach here (see unit report); its frame is an assumed contract of C04.lex.tokenize.total",
-                                            "C04.lex.tokenize.total is thorough-only: whole tokenize_file on symbolic text does not finish symbolic execution in 400 s even at 2 chars without callee contracts"]),
+                       undecided_by_design=[
+                           "C04.lex.tokenize.total (whole tokenize_file): CBMC does not finish within 600 s at 2 symbolic chars, neither on the plain function nor with all seven callees (Lexer::new, handle_num, scan_for_unescaped_delim, process_escapes_into, handle_multiline_string, keyword_from_str, is_poly_ident) replaced by their contracts; the harness stays in harness.rs and runs only with U11_TRY_TOKENIZE=1. The main loop and its dispatch are therefore NOT covered; the `'/'` arm is covered as a lifted slice",
+                           "C30.lex.multiline.indent / handle_multiline_string: needs String -> Vec<char> (`string_val.chars().collect()`), which alone exceeds 400 s at 4 chars in CBMC; also the book documents no indentation rule (only e2e tests do). Not covered",
+                           "Lexer::new (String -> Vec<char>): same limit; the C33 obligation assumes its meaning"]),
         )
         return obs, info
     finally:
